@@ -563,6 +563,10 @@ class Lib:
         return fn(ctx, *args, **kwargs)
 
     def call_exc_method(self, ctx, exc, name, args, kwargs):
+        if name == "set_error_location_if_unknown":
+            # pydsdl.Error.set_error_location_if_unknown only fills the exception's own path / line attributes
+            # (location bookkeeping of error objects is not modelled: no contract here mentions it)
+            return None
         raise EngineLimit("exception method %s" % name)
 
     # -- simple ones
